@@ -22,6 +22,7 @@ RULE = (
     ">=2 materializers or >=2 outputs; distinct by (case, variant)."
 )
 ASSUMPTIONS = [
+    "chunk-layout relation (two Arrow chunks with their own dictionaries vs combine_chunks()) is evaluated without row removal (na_action=ignore)",
     "index labels across materializers are not compared (narwhals resets the index); dtypes are not compared (C08)",
     "polars is not installed: narwhals is exercised on pandas and pyarrow inputs only",
 ]
@@ -124,7 +125,54 @@ def check_case(case) -> Outcome:
             out.fail("values-agree", f"{s!r} ({opts}) variant {variant}: columns {bad} differ\n variant {V.tolist()}\n baseline {B.tolist()}", **feat)
         if output == "pandas" and list(mm.columns) != names:
             out.fail("pandas-labels", f"{s!r} variant {variant}: {list(mm.columns)}", **feat)
+    if case.get("chunked") is not None and len(df) >= 2:
+        chunk_layout(out, s, df, opts, case["chunked"], structured)
     return out
+
+
+def chunk_layout(out, s, df, opts, chunked, structured):
+    """An Arrow table is the same data however it is chunked: two chunks whose text columns are dictionary-encoded
+    separately (each chunk has its own dictionary) against the same table with its chunks combined (one unified
+    dictionary)."""
+    import pyarrow as pa
+    from ..libio import model_matrix
+
+    split, output = chunked
+    # (rows are not removed here: which categories a dictionary column "declares" once whole chunks have been filtered
+    # away is Arrow's business, and differs between the two layouts)
+    opts = dict(opts, na_action="ignore")
+    h = split % (len(df) - 1) + 1
+    full = pa.Table.from_pandas(df, preserve_index=False)
+    text = [f.name for f in full.schema if pa.types.is_string(f.type) or pa.types.is_large_string(f.type)]
+    halves = []
+    for half in (df.iloc[:h], df.iloc[h:]):
+        t = pa.Table.from_pandas(half, schema=full.schema, preserve_index=False)
+        for c in text:
+            t = t.set_column(t.schema.get_field_index(c), c, t[c].combine_chunks().cast(pa.string()).dictionary_encode())
+        halves.append(t)
+    T = pa.concat_tables(halves)
+    if not text or all(T[c].chunk(0).dictionary.equals(T[c].chunk(1).dictionary) for c in text):
+        return
+    out.label("chunked-arrow-dictionaries")
+    feat = dict(output=output, mat="nw-arrow", na=opts["na_action"], chunked=True)
+    res = []
+    for tab in (T, T.combine_chunks()):
+        try:
+            mm = model_matrix(s, tab, output=output, **opts)
+            mm = mm.rhs if structured else mm
+            nm = list(mm.model_spec.column_names)
+            res.append((nm, dense(mm).reshape(-1, len(nm)) if nm else np.zeros((mm.shape[0], 0))))
+        except Exception as e:  # compared below: the layout must not change the outcome, whatever it is
+            res.append(type(e).__name__ + ": " + str(e)[:120])
+    a, b = res
+    if isinstance(a, str) or isinstance(b, str):
+        if isinstance(a, str) != isinstance(b, str) or a.split(":")[0] != b.split(":")[0]:
+            out.fail("chunk-layout-changes-outcome", f"{s!r} ({opts}) split at {h}: chunked -> {a if isinstance(a, str) else 'matrix'}, combined -> {b if isinstance(b, str) else 'matrix'}", **feat)
+        return
+    if a[0] != b[0]:
+        out.fail("chunk-layout-changes-outcome", f"{s!r} ({opts}) split at {h}: columns {a[0]} (two chunks) vs {b[0]} (combined)", **feat)
+    elif a[1].shape != b[1].shape or not np.allclose(a[1], b[1], rtol=1e-12, atol=1e-12, equal_nan=True):
+        out.fail("chunk-layout-changes-outcome", f"{s!r} ({opts}) split at {h}: values differ\n two chunks {a[1].tolist()}\n combined {b[1].tolist()}", **feat)
 
 
 # hand-coded contrast matrices (k x (k-1) and square), always with the complete level list of the column
@@ -147,7 +195,7 @@ def _with_custom(fc, pick):
 def gen(max_rows=10):
     variant = st.tuples(st.sampled_from(OUTPUTS), st.sampled_from(ENTRIES), st.sampled_from(MATS))
     return st.builds(
-        lambda fr, fc, efr, na, vs, two, ren: {"frame": fr, "formula": fc, "efr": efr, "na_action": na, "variants": [list(v) for v in vs], "twosided": two, "rename": ren},
+        lambda fr, fc, efr, na, vs, two, ren, ch: {"frame": fr, "formula": fc, "efr": efr, "na_action": na, "variants": [list(v) for v in vs], "twosided": two, "rename": ren, "chunked": ch},
         F.frame(max_rows=max_rows, nulls=True, index_kinds=("default", "default", "shuffled", "strings"), bool_col=True),
         st.builds(_with_custom, F.formulas(num_cols=F.NUM_COLS + ["t"]), st.one_of(st.none(), st.none(), st.none(), st.tuples(st.sampled_from(CUSTOM), st.integers(0, 2)))),
         st.booleans(),
@@ -155,6 +203,7 @@ def gen(max_rows=10):
         st.lists(variant, min_size=3, max_size=6, unique=True),
         st.sampled_from([False, False, True]),
         st.one_of(st.none(), st.none(), st.none(), st.sampled_from([["y", "index"], ["G", "index"], ["y", "__index_level_0__"], ["y", "row_nr"]])),
+        st.one_of(st.none(), st.tuples(st.integers(0, 30), st.sampled_from(OUTPUTS)).map(list)),
     )
 
 
